@@ -216,12 +216,11 @@ func (c *Ctx) runMarchingCubesTable(prefix string) {
 	var gens []rot
 	fd, _ := c.funcDecl(c.mustFunc("model3d", "allMcRotations"))
 	if fd != nil {
+		// every literal of type mcRotation in the function (assigned to a
+		// variable or listed in an array of generators), except the identity the
+		// search starts from
 		ast.Inspect(fd.Body, func(n ast.Node) bool {
-			as, ok := n.(*ast.AssignStmt)
-			if !ok || len(as.Rhs) != 1 {
-				return true
-			}
-			cl, ok := as.Rhs[0].(*ast.CompositeLit)
+			cl, ok := n.(*ast.CompositeLit)
 			if !ok {
 				return true
 			}
@@ -232,7 +231,15 @@ func (c *Ctx) runMarchingCubesTable(prefix string) {
 			if ok && len(ints) == 8 {
 				var r rot
 				copy(r[:], ints)
-				gens = append(gens, r)
+				identity := true
+				for i, x := range r {
+					if x != i {
+						identity = false
+					}
+				}
+				if !identity {
+					gens = append(gens, r)
+				}
 			}
 			return true
 		})
